@@ -5,7 +5,7 @@ import RattrModel.ResultsProject
 import RattrProofs.Lemmas.ResultsCex
 
 namespace Rattr.Cex
-open Rattr Rattr.Results Rattr.Resolve Rattr.Project
+open Rattr Rattr.Results Rattr.Resolve Rattr.ResProject
 
 def pfn (name file : String) (ps : List String) (calls : List PCall) (gets : List NameS) : PFn :=
   { isClass := false, name := s name, file := s file, iface := iface ps, calls := calls,
